@@ -1,7 +1,7 @@
 (* C07 and C09 dispatch *)
 From Coq Require Import List Arith NArith Bool.
 From AV Require Import Base.Util Base.ITree Spec.Lang Spec.FA Model.Codec Model.Decide Model.Product
-     Model.Build Model.Subset.
+     Model.Build Model.Subset Model.Minimize.
 Import ListNotations.
 
 Definition enc_diff' (r : res (option word)) : itree := enc_res (enc_opt enc_nats) r.
@@ -12,7 +12,8 @@ Definition d07 (op : nat) (t : itree) : itree :=
     match dec_nfa tn, dec_dfa ti with
     | Some n, Some impl =>
       L [Ib (valid_dfa impl); In_ (size impl); enc_diff' (nfa_dfa_diff n impl);
-         enc_res (fun m => L [In_ (size m); enc_diff' (dfa_diff impl m); Ib (valid_dfa m)]) (determinize_m n)]
+         enc_res (fun m => L [In_ (size m); enc_diff' (dfa_diff impl m); Ib (valid_dfa m);
+                              enc_res In_ (bind (minify m) (fun r => Ok (size r)))]) (determinize_m n)]
     | _, _ => bad_input
     end
   | 2, L [td; ti] =>   (* NFA.from_dfa *)
